@@ -23,12 +23,12 @@ UNPHASED = ["RLoss", "VLoss", "Rectifier"]
 
 def run(model, rep, tier):
     rep.explanation = EXPLANATION
-    n = check_against_spec(model, rep, "R1", LOADS, "I", label=" load phase table")
-    rep.floor("R1", n, 6)
-    n = check_against_spec(model, rep, "R2", PHASED, "IVP", want_rows=lambda a, s, k, z: is_sleep_row(a), label=" sleep rows")
-    rep.floor("R2", n, 30)
-    r2_nopc(model, rep)
-    sysrules.c06_plumbing(model, rep)
+    A = rep.attempt
+    A(lambda: rep.floor("R1", check_against_spec(model, rep, "R1", LOADS, "I", label=" load phase table"), 6))
+    A(lambda: rep.floor("R2", check_against_spec(model, rep, "R2", PHASED, "IVP", want_rows=lambda a, s, k, z: is_sleep_row(a), label=" sleep rows"), 30))
+    A(r2_nopc, model, rep)
+    A(sysrules.c06_plumbing, model, rep)
+    A(lambda: sysrules.object_state_rule(model, rep, sysrules.roles(model), "R4"))
 
 
 def r2_nopc(model, rep):
